@@ -351,7 +351,8 @@ variable {ι δ : Type} [DecidableEq ι]
 /-- a model call as a call of the lock model -/
 def toLocked (c : Handles.Call ι δ) : Locked.Call (St ι δ) := ⟨stepsOf c⟩
 
-theorem settle_publish (h : Nat) (s : St ι δ) : settle h (publish h s) = exec s (.commit h) := rfl
+theorem settle_publish (h : Nat) (s : St ι δ) :
+    settle h (publish h (snapshot h s)) = exec s (.commit h) := rfl
 
 theorem applySteps_stepsOf (c : Handles.Call ι δ) (s : St ι δ) :
     applySteps (stepsOf c) s = exec s c := by
@@ -536,10 +537,22 @@ theorem publish_queue (h h' : Nat) (s : St ι δ) : (publish h s).queue h' = s.q
   unfold publish
   split <;> rfl
 
+omit [DecidableEq ι] in
+theorem snapshot_queue (h h' : Nat) (s : St ι δ) : (snapshot h s).queue h' = s.queue h' := by
+  unfold snapshot
+  split <;> rfl
+
+omit [DecidableEq ι] in
+theorem getSnap_setSnap (snaps : List (Nat × Map ι δ)) (h : Nat) (m : Map ι δ) :
+    getSnap (setSnap snaps h m) h = m := by
+  simp [setSnap, getSnap]
+
 theorem exec_commit_empty (s : St ι δ) (hd : Nat) (he : (s.queue hd).isEmpty = true) :
     exec s (.commit hd) = s.log .ok := by
+  have h0 : snapshot hd s = s := by unfold snapshot; rw [he]; rfl
+  show settle hd (publish hd (snapshot hd s)) = _
+  rw [h0]
   have h1 : ((publish hd s).queue hd).isEmpty = true := by rw [publish_queue]; exact he
-  show settle hd (publish hd s) = _
   unfold settle
   rw [h1]
   unfold publish
@@ -549,13 +562,18 @@ theorem exec_commit_empty (s : St ι δ) (hd : Nat) (he : (s.queue hd).isEmpty =
 theorem exec_commit_nonempty (s : St ι δ) (hd : Nat) (he : (s.queue hd).isEmpty = false) :
     exec s (.commit hd) =
       ({ s with committed := applyOps s.committed (s.queue hd), wal := [],
-                queues := s.queues.set hd [] } : St ι δ).log .ok := by
-  have h1 : ((publish hd s).queue hd).isEmpty = false := by rw [publish_queue]; exact he
-  show settle hd (publish hd s) = _
+                queues := s.queues.set hd [],
+                snaps := setSnap s.snaps hd s.committed } : St ι δ).log .ok := by
+  have h2 : ((snapshot hd s).queue hd).isEmpty = false := by rw [snapshot_queue]; exact he
+  have h1 : ((publish hd (snapshot hd s)).queue hd).isEmpty = false := by rw [publish_queue]; exact h2
+  show settle hd (publish hd (snapshot hd s)) = _
   unfold settle
   rw [h1]
   unfold publish
+  rw [h2]
+  unfold snapshot
   rw [he]
+  simp only [Bool.false_eq_true, if_false, getSnap_setSnap]
   rfl
 
 /-- one copy of each id, after any call -/
@@ -645,10 +663,18 @@ theorem overlap_rejected :
     sectionsDisjoint ([⟨0, .enter, 0⟩, ⟨1, .enter, 0⟩, ⟨1, .exit, 0⟩, ⟨0, .exit, 0⟩] : List (Event Nat)) = false := by
   decide
 
-/-- … and overlap matters: without mutual exclusion a lost update is possible.  Two handles
-whose commits interleave at step granularity (`publish 0; publish 1; settle 0; settle 1` is
-*not* a schedule of the lock model) — here the model shows what the lock excludes: with the
-lock every schedule equals a serial one. -/
+/-- **Why the monitor matters.**  Without mutual exclusion the commit steps of two handles can
+interleave as `snapshot 0; snapshot 1; publish 0; settle 0; publish 1; settle 1` — not a
+schedule of the lock model (`sectionsDisjoint` is false on its trace) — and handle 0's
+committed add is lost: the outcome equals neither serial order. -/
+theorem unlocked_lost_update :
+    let s0 : St Nat Nat := runSerial (Handles.init [] 2) [.add 0 true 1 10, .add 1 true 2 20]
+    let bad := settle 1 (publish 1 (settle 0 (publish 0 (snapshot 1 (snapshot 0 s0)))))
+    lookup bad.committed 1 = none ∧
+    lookup (runSerial s0 [.commit 0, .commit 1]).committed 1 = some 10 ∧
+    lookup (runSerial s0 [.commit 1, .commit 0]).committed 1 = some 10 := by
+  decide
+
 example : lookup (applyOps ([] : Map Nat Nat) [.add 1 10, .del 1, .add 2 5]) 1 = none := by decide
 example : lookup (applyOps ([] : Map Nat Nat) [.add 1 10, .del 1, .add 1 11]) 1 = some 11 := by decide
 
